@@ -432,4 +432,12 @@ theorem run_spec (st : State) (ops : List Op) (hi : Inv st) (hd : Disciplined en
     simp only [List.all_cons, h2, Bool.true_and]
     exact h4
 
+/-- `Disciplined` is decidable (used by the concrete example histories). -/
+instance decDisciplined (rule : DB → Handle → Ensure) :
+    ∀ (st : State) (ops : List Op), Decidable (Disciplined rule st ops)
+  | _, [] => isTrue trivial
+  | st, op :: ops =>
+    have := decDisciplined rule (stepWith rule st op).1 ops
+    inferInstanceAs (Decidable (opOK st op = true ∧ Disciplined rule (stepWith rule st op).1 ops))
+
 end GnoVerif.C26
